@@ -82,3 +82,8 @@ Fixpoint s6w_list (l : list node) : bool :=
   end.
 
 Definition s6w (t : node) : bool := s6w_list (nch t).
+
+(* no Table anywhere in the subtree (used to state that the sections of a table are counted without
+   those of tables nested in its cells) *)
+Fixpoint no_table (n : node) : bool :=
+  match n with Node v _ ch => negb (is_table_v v) && forallb no_table ch end.
